@@ -497,8 +497,9 @@ class Codec:
         n = rng.choice([0, 1, 9, 214, 255])
         wantc = lead + [';'.join(str(x) for x in base + [5, n])]
         cfn = getattr(F, pfx + 'color256') if pfx else F.color256
+        cfn2 = getattr(F, pfx + 'colour256') if pfx else F.colour256
         sp = rng.choice(['color', 'colour'])
-        for label, f in [('helper', lambda: A('x', cfn(n))), ('str', lambda: A('x', '%s%s256(%d)' % (pfx, sp, n))),
+        for label, f in [('helper', lambda: A('x', cfn(n))), ('helper_colour', lambda: A('x', cfn2(n))), ('str', lambda: A('x', '%s%s256(%d)' % (pfx, sp, n))),
                          ('hex', lambda: A('x', '%s%s256(0x%x)' % (pfx, sp, n))), ('br', lambda: A('x', '%s%s256([ %d ])' % (pfx, sp, n)))]:
             o = call(f)
             if o[0] != 'ok' or o[1].settings_at(0) != ';'.join(wantc):
@@ -536,7 +537,8 @@ class Codec:
 
     NEAR = ['rgb(12, 3, 4)', 'ul_color256(17)', 'bg_rgb(0xA0B0C0)', 'rgb(255,0,0)', 'dul_rgb(0x10,2,3)', 'fg_colour256(0x10)',
             'color256([ 9 ])', 'rgb([1, 2, 3])', 'red', 'bg_blue', 'bold', 'no_bold_faint', 'double underline', 'fg_default',
-            '38;5;214', '1;31', '[1', 'red;bold', 'ul_rgb((1,2,3))', 'rgb(0x102030)']
+            '38;5;214', '1;31', '[1', 'red;bold', 'ul_rgb((1,2,3))', 'rgb(0x102030)', 'rgb(010, 020, 030)', 'color256(007)',
+            'fg_rgb(255,099,071)', 'rgb(0b1,0,0)', 'rgb(0o7,0,0)', 'color256(1_0)', 'rgb(+1,2,3)', 'rgb(1e2,0,0)', '007', '0x1f', '1_0']
 
     def near_miss(self):
         """a well-formed directive, then strings that differ from it by one edit (a blank inside a
